@@ -14,7 +14,7 @@ for d in sorted(glob.glob('/verif/seeded/*')):
     for l in m.get('check_output') or []:
         mm=re.search(r'harness=(\S+) obligation="([^"]{0,70})',l)
         if mm: by=mm.group(1)+': "'+mm.group(2)+'..."'; break
-    if det is True: res='**caught** ('+by+')'
+    if det is True: res='**caught** ('+by+')'+(' - '+m['note'] if m.get('note') else '')
     elif det is False: res='missed (exit %s) %s'%(m.get('check_exit'), m.get('miss_reason',''))
     else: res='not yet run'
     rows.append('| %s | %s | %s | %s |'%(sid,files,what,res))
